@@ -47,5 +47,13 @@ pub assume_specification<T, F: FnOnce(T) -> bool>[ Option::<T>::is_some_and ](o:
 // A-std: slice::from_ref
 pub assume_specification<T>[ core::slice::from_ref::<T> ](t: &T) -> (r: &[T])
     ensures r@ == seq![*t];
+
+/// the value `Default::default()` yields for T (uninterpreted; pinned for bool below)
+pub uninterp spec fn default_of<T>() -> T;
+// A-std: core::mem::take
+pub assume_specification<T: Default>[ core::mem::take::<T> ](x: &mut T) -> (r: T)
+    ensures r == *old(x), *final(x) == default_of::<T>();
+pub broadcast axiom fn ax_default_bool()
+    ensures #[trigger] default_of::<bool>() == false;
 } // mod stdx
 use stdx::*;
